@@ -918,6 +918,12 @@ def ignore_cases(draw, tier):
   mode = draw(st.sampled_from(['some', 'some', 'some', 'some', 'none', 'all']))
   ignore = [p for p in pairs
             if mode == 'all' or (mode == 'some' and draw(st.booleans()))]
+  if mode == 'some' and len(pairs) >= 2:
+    # a proper, non-empty subset
+    if not ignore:
+      ignore = [draw(st.sampled_from(pairs))]
+    elif len(ignore) == len(pairs):
+      ignore.remove(draw(st.sampled_from(pairs)))
   if draw(st.booleans()):
     ignore = ignore[::-1]
   ign = {tuple(p) for p in ignore}
@@ -934,7 +940,8 @@ def ignore_cases(draw, tier):
         out[m['name']][n] = draw(st.lists(elem, min_size=size, max_size=size))
     return out
 
-  steps = [values(True) for _ in range(draw(st.integers(1, 4 if tier == 'quick' else 8)))]
+  nsteps = draw(st.sampled_from([1, 2, 2, 3, 3, 4] if tier == 'quick' else [1, 2, 3, 4, 6, 8]))
+  steps = [values(True) for _ in range(nsteps)]
   return {'alg': 'ignore_grads_haiku', 'modules': modules, 'ignore': ignore,
           'opt': draw(st.sampled_from(IG_OPTS)), 'lr_exp': draw(st.integers(0, 4)),
           'params': values(False), 'steps': steps}
